@@ -53,6 +53,7 @@ var bceJustified = map[string]string{
 	"(*GoAway).Serialize|slice|fr.payload[:4]":                                               "fr.payload was just built by appending 4 octets to payload[:0]",
 	"(*Headers).Serialize|slice|h.rawHeaders[5:]":                                            "5 octets were appended on the line above",
 	"(*Headers).Serialize|slice|h.rawHeaders[0:4]":                                           "5 octets were appended two lines above",
+	"(*Headers).Serialize|slice|payload[0:4]":                                                "5 octets were appended to the payload on the line above",
 	"(*Headers).Serialize|index|h.rawHeaders[4]":                                             "5 octets were appended three lines above",
 	"(*HPACK).shrink|index|hp.dynamic[i]":                                                    "i < n <= len(hp.dynamic) by the loop that computed n",
 	"(*HPACK).shrink|slice|hp.dynamic[n:]":                                                   "n <= len(hp.dynamic) by the loop that computed n",
